@@ -749,8 +749,9 @@ pub fn run(ctx: &Ctx) -> i32 {
             Plan { desired: 2, tick: true, depth: 4 },
         ],
         Tier::Thorough => vec![
-            Plan { desired: 1, tick: false, depth: 7 },
-            Plan { desired: 2, tick: false, depth: 7 },
+            // (depth 7 does not finish within the budget: 27 M+ transitions per size)
+            Plan { desired: 1, tick: false, depth: 6 },
+            Plan { desired: 2, tick: false, depth: 6 },
             Plan { desired: 3, tick: false, depth: 6 },
             Plan { desired: 2, tick: true, depth: 5 },
             Plan { desired: 1, tick: true, depth: 5 },
